@@ -523,6 +523,9 @@ func genericRules(x *vs.Exec, legitBlocked func(b vs.Blocked) bool) []Viol {
 		}
 	}
 	Hit("G2")
+	if x.Outcome == "livelock" {
+		v = append(v, Viol{"G2", "livelock: " + firstLine(x.Detail)})
+	}
 	if x.Outcome == "deadlock" {
 		var bl []string
 		for _, b := range x.Blocked {
